@@ -9,6 +9,9 @@ package cert
 // GetCertificate closure), Store, getCertificate. Simulated: the disk behind
 // filepath.Walk/os.ReadFile (an in-memory directory), the HTTP certificate
 // server behind http.Get, the network of the TLS handshakes (simnet), the clock.
+// The HTTP server's responses are streams (c11Body): they arrive in reads of a
+// scripted size, may pause on the simulated clock, and may end before the
+// announced length with a transport error (states listcut / filecut).
 //
 // One run publishes a history of source states (good certificate sets and
 // unusable material) at driver-chosen instants, lets the watcher poll on the
@@ -48,6 +51,7 @@ import (
 	"sort"
 	"strings"
 	"sync"
+	"sync/atomic"
 	"syscall"
 	"testing/synctest"
 	"time"
@@ -79,6 +83,7 @@ type c11Cert struct {
 	Combined bool     `json:"combined_file,omitempty"` // <stem>.pem holding certificate and key; otherwise <stem>-cert.pem / <stem>-key.pem
 	CN       string   `json:"cn,omitempty"`
 	SANs     []string `json:"sans,omitempty"`
+	Chain    bool     `json:"chain,omitempty"` // the certificate file ends with a second CERTIFICATE block (an issuer certificate)
 }
 
 func (c c11Cert) certFile() string {
@@ -122,8 +127,28 @@ type c11Wave struct {
 	Idle   []c11Shake `json:"idle,omitempty"`
 }
 
+// c11Xfer scripts how the HTTP certificate server transfers its responses while one
+// state is published. The zero value is a server that hands over every body whole.
+type c11Xfer struct {
+	Piece    int    `json:"read_size,omitempty"`         // most bytes one Read of a body returns (0: as many as asked for)
+	EndData  bool   `json:"end_with_data,omitempty"`     // the last bytes come together with io.EOF / the transport error
+	NoLength bool   `json:"no_content_length,omitempty"` // chunked: the length is not announced
+	StallOn  string `json:"stall_on,omitempty"`          // list | file: this body pauses once
+	StallAt  int    `json:"stall_at,omitempty"`          // 0 before the first byte, 1 in the middle, 2 after the last delivered byte
+	Stall    string `json:"stall,omitempty"`
+	stall    time.Duration
+	// listcut / filecut: the body ends early with a transport error
+	Err       string `json:"error,omitempty"`      // unexpected-eof | reset | timeout
+	CutLines  int    `json:"cut_lines,omitempty"`  // listcut: complete lines of the listing that are delivered
+	CutInside bool   `json:"cut_inside,omitempty"` // listcut: plus the first half of the next name
+	CutFile   string `json:"cut_file,omitempty"`   // filecut: cert | key file of the victim
+	CutAt     int    `json:"cut_at,omitempty"`     // filecut: 0 no byte, 1 half, 2 after a complete PEM block, 3 before the last END line
+	CutBlock  int    `json:"cut_block,omitempty"`
+}
+
 type c11State struct {
 	Kind      string     `json:"kind"`
+	Xfer      *c11Xfer   `json:"transfer,omitempty"`
 	Variant   int        `json:"variant,omitempty"`
 	Certs     []c11Cert  `json:"certs"`
 	Victim    int        `json:"victim,omitempty"`
@@ -150,7 +175,41 @@ var c11Domains = []string{"alpha.test", "beta.test", "gamma.example"}
 var c11Hosts = []string{"www", "api", "app"}
 var c11Stems = []string{"aa", "bb", "cc", "dd", "ee", "ff"}
 var c11PathBad = []string{"brokenpem", "torn", "missingkey", "empty", "noroot", "readerr", "walkerr"}
-var c11HTTPBad = []string{"brokenpem", "torn", "missingkey", "empty", "list500", "file500", "list404", "listerr", "fileerr"}
+var c11HTTPBad = []string{"brokenpem", "torn", "missingkey", "empty", "list500", "file500", "list404", "listerr", "fileerr", "listcut", "filecut", "listcut", "filecut"}
+var c11XferErrs = []string{"unexpected-eof", "reset", "timeout"}
+
+// c11GenXfer draws the transfer script of one state of an http source.
+func c11GenXfer(g *simcore.Tape, st *c11State, refresh time.Duration) *c11Xfer {
+	xf := &c11Xfer{}
+	xf.Piece = []int{0, 1, 7, 64, 300}[g.Intn(5)]
+	xf.EndData = g.Chance(30)
+	xf.NoLength = g.Chance(25)
+	if g.Chance(20) {
+		xf.StallOn = []string{"list", "file"}[g.Intn(2)]
+		xf.StallAt = g.Intn(3)
+		xf.stall = []time.Duration{refresh / 4, refresh / 2, refresh, 3 * refresh}[g.Intn(4)]
+		xf.Stall = xf.stall.String()
+	}
+	switch st.Kind {
+	case "listcut":
+		nfiles := 0
+		for _, c := range st.Certs {
+			nfiles++
+			if !c.Combined {
+				nfiles++
+			}
+		}
+		xf.Err = simcore.Pick(g, c11XferErrs)
+		xf.CutLines = g.Intn(nfiles)
+		xf.CutInside = g.Chance(30)
+	case "filecut":
+		xf.Err = simcore.Pick(g, c11XferErrs)
+		xf.CutFile = []string{"cert", "key"}[g.Intn(2)]
+		xf.CutAt = g.Intn(4)
+		xf.CutBlock = g.Intn(2)
+	}
+	return xf
+}
 
 func c11TakeOne(g *simcore.Tape, xs *[]string) string {
 	i := g.Intn(len(*xs))
@@ -172,6 +231,7 @@ func c11GenSet(g *simcore.Tape, idx, maxCerts int) []c11Cert {
 	var out []c11Cert
 	for k := 0; k < n; k++ {
 		c := c11Cert{Stem: c11TakeOne(g, &stems), Combined: g.Bool()}
+		c.Chain = g.Chance(25)
 		style := g.Intn(3)
 		nn := 1
 		if style != 2 {
@@ -292,6 +352,9 @@ func c11Gen(g *simcore.Tape, thorough bool) *c11Scenario {
 		if i > 0 {
 			st.Gap = g.Intn(3)
 		}
+		if sc.Source == "http" {
+			st.Xfer = c11GenXfer(g, &st, sc.reff())
+		}
 		nw := g.Range(1, 2)
 		for w := 0; w < nw; w++ {
 			st.Waves = append(st.Waves, c11Wave{Hop: g.Intn(3)})
@@ -391,13 +454,42 @@ type c11Image struct {
 	listStatus int
 	listErr    bool
 	fileStatus map[string]int
+	xfer       c11Xfer        // how the http server transfers this state's responses
+	cut        map[string]int // response bodies ("" is the listing) that end after so many bytes with xfer's transport error
+	stallFile  string         // the file whose body pauses under xfer.StallOn == "file"
+}
+
+// listing is the text file the http source is pointed at: one file name per line.
+func (im *c11Image) listing() []byte {
+	var b bytes.Buffer
+	for _, n := range im.order {
+		b.WriteString(n + "\n")
+	}
+	return b.Bytes()
+}
+
+// c11BlockEnds returns the offsets just behind every complete PEM block of b.
+func c11BlockEnds(b []byte) []int {
+	var ends []int
+	off := 0
+	for _, line := range bytes.SplitAfter(b, []byte("\n")) {
+		off += len(line)
+		if bytes.HasPrefix(line, []byte("-----END ")) {
+			ends = append(ends, off)
+		}
+	}
+	return ends
 }
 
 type c11Owner struct{ state, cert int }
 
 func c11BuildImage(idx int, st *c11State, set []c11Cert, owner map[string]c11Owner) *c11Image {
-	im := &c11Image{state: idx, kind: st.Kind, exists: true, files: map[string][]byte{}, fileStatus: map[string]int{}}
+	im := &c11Image{state: idx, kind: st.Kind, exists: true, files: map[string][]byte{}, fileStatus: map[string]int{}, cut: map[string]int{}}
+	if st.Xfer != nil {
+		im.xfer = *st.Xfer
+	}
 	victimStem := st.Certs[st.Victim].Stem
+	cutFile := ""
 	for k, c := range set {
 		tag := fmt.Sprintf("s%d/%s", idx, c.Stem)
 		m := c11Material(tag, c)
@@ -429,16 +521,49 @@ func c11BuildImage(idx int, st *c11State, set []c11Cert, owner map[string]c11Own
 				im.walkErr = c.certFile()
 			case "file500":
 				im.fileStatus[c.certFile()] = 500
+			case "filecut":
+				cutFile = c.certFile()
+				if im.xfer.CutFile == "key" {
+					cutFile = c.keyFile()
+				}
+			}
+			im.stallFile = c.certFile()
+			if cutFile != "" {
+				im.stallFile = cutFile
 			}
 		}
+		var chainPEM []byte
+		if c.Chain {
+			// an issuer certificate behind the leaf (and behind the key in a combined file); it is never a leaf itself
+			chainPEM = c11Material(tag+"/chain", c11Cert{CN: "c11 issuer of " + tag}).certPEM
+		}
 		if c.Combined {
-			im.files[c.certFile()] = append(append([]byte(nil), certPEM...), keyPEM...)
+			im.files[c.certFile()] = append(append(append([]byte(nil), certPEM...), keyPEM...), chainPEM...)
 		} else {
-			im.files[c.certFile()] = certPEM
+			im.files[c.certFile()] = append(append([]byte(nil), certPEM...), chainPEM...)
 			if !dropKey {
 				im.files[c.keyFile()] = keyPEM
 			}
 		}
+	}
+	if cutFile != "" {
+		// the body of this file ends early: at least a part of its last END line is always lost
+		b := im.files[cutFile]
+		ends := c11BlockEnds(b)
+		n := 0
+		switch im.xfer.CutAt {
+		case 1:
+			n = len(b) / 2
+		case 2:
+			if len(ends) > 1 {
+				n = ends[im.xfer.CutBlock%(len(ends)-1)]
+				break
+			}
+			fallthrough
+		case 3:
+			n = bytes.LastIndex(b, []byte("-----END "))
+		}
+		im.cut[cutFile] = n
 	}
 	switch st.Kind {
 	case "empty":
@@ -456,6 +581,18 @@ func c11BuildImage(idx int, st *c11State, set []c11Cert, owner map[string]c11Own
 		im.order = append(im.order, n)
 	}
 	sort.Strings(im.order)
+	if st.Kind == "listcut" && len(im.order) > 0 {
+		// the listing ends early: at least one name is lost or damaged
+		k := im.xfer.CutLines % len(im.order)
+		n := 0
+		for _, name := range im.order[:k] {
+			n += len(name) + 1
+		}
+		if im.xfer.CutInside {
+			n += (len(im.order[k]) + 1) / 2
+		}
+		im.cut[""] = n
+	}
 	return im
 }
 
@@ -548,6 +685,55 @@ type c11Run struct {
 	spun        bool
 	lost        bool // the working set has been reported lost and not been seen again
 	faulted     map[int]bool
+	stop        chan struct{} // closed at teardown: ends the pauses of response bodies
+	over        atomic.Bool   // teardown has begun
+	pmu         sync.Mutex
+	paused      map[*c11Body]time.Time // response bodies that stand in a pause right now, and when each goes on
+	pauses      atomic.Int32           // statistics: pauses begun, transport errors handed to a reader
+	cuts        atomic.Int32
+}
+
+// slack is the longest time for which a load that was already under way when the
+// current state appeared (a load of an earlier state) can still be held up by the
+// transfer: one response of a state pauses, once per load.
+func (x *c11Run) slack() time.Duration {
+	var before time.Duration
+	for j := 0; j < x.cur; j++ {
+		if d := x.images[j].xfer.stall; d > before {
+			before = d
+		}
+	}
+	return before
+}
+
+// pause notes that b stands in a pause until at (zero: it goes on now).
+func (x *c11Run) pause(b *c11Body, at time.Time) {
+	x.pmu.Lock()
+	defer x.pmu.Unlock()
+	if at.IsZero() {
+		delete(x.paused, b)
+		return
+	}
+	x.paused[b] = at
+	x.pauses.Add(1)
+}
+
+// transferring reports, at a quiescent point, whether a load is being held up by a pausing response.
+func (x *c11Run) transferring() bool {
+	_, ok := x.resumes()
+	return ok
+}
+
+// resumes returns the instant at which the next pausing response goes on.
+func (x *c11Run) resumes() (at time.Time, ok bool) {
+	x.pmu.Lock()
+	defer x.pmu.Unlock()
+	for _, t := range x.paused {
+		if !ok || t.Before(at) {
+			at, ok = t, true
+		}
+	}
+	return at, ok
 }
 
 func (x *c11Run) tick() int {
@@ -557,11 +743,14 @@ func (x *c11Run) tick() int {
 	return x.ticks
 }
 
-func (x *c11Run) reff() time.Duration {
-	if x.sc.refresh < time.Second {
+func (x *c11Run) reff() time.Duration { return x.sc.reff() }
+
+// reff is the interval at which the watcher polls (fabio documents one second as the least).
+func (sc *c11Scenario) reff() time.Duration {
+	if sc.refresh < time.Second {
 		return time.Second
 	}
-	return x.sc.refresh
+	return sc.refresh
 }
 
 // ---- the loader seam: simulated directory and certificate server
@@ -686,19 +875,123 @@ func (x *c11Run) Stat(path string) (os.FileInfo, error) {
 	return nil, &os.PathError{Op: "stat", Path: path, Err: syscall.ENOENT}
 }
 
-func c11Response(status int, body []byte) *http.Response {
-	return &http.Response{StatusCode: status, Status: fmt.Sprintf("%d %s", status, http.StatusText(status)), Proto: "HTTP/1.1", ProtoMajor: 1, ProtoMinor: 1,
-		Header: http.Header{"Content-Type": []string{"text/plain; charset=utf-8"}}, Body: io.NopCloser(bytes.NewReader(body)), ContentLength: int64(len(body))}
+// c11Body is the body of one response of the simulated certificate server: a stream
+// that arrives in reads of a scripted size, may pause once on the simulated clock and
+// ends with io.EOF or - before the announced length - with a transport error.
+type c11Body struct {
+	data    []byte // the bytes that arrive
+	off     int
+	piece   int
+	end     error // io.EOF, or the error of a transfer that was cut short
+	endData bool  // the last bytes are returned together with end
+	stallAt int   // offset at which the transfer pauses (-1: never)
+	stall   time.Duration
+	x       *c11Run
 }
 
-func c11ErrorPage(status int) *http.Response {
-	if status == 404 {
-		return c11Response(404, []byte("404 page not found\n"))
+var errC11Over = errors.New("c11: the simulation is over")
+
+func (b *c11Body) Read(p []byte) (int, error) {
+	if len(p) == 0 {
+		return 0, nil
 	}
-	return c11Response(status, []byte(http.StatusText(status)+"\n"))
+	if b.stallAt >= 0 && b.off >= b.stallAt {
+		b.stallAt = -1
+		t := time.NewTimer(b.stall)
+		b.x.pause(b, time.Now().Add(b.stall))
+		select {
+		case <-t.C:
+		case <-b.x.stop:
+			t.Stop()
+		}
+		b.x.pause(b, time.Time{})
+	}
+	select {
+	case <-b.x.stop:
+		return 0, errC11Over
+	default:
+	}
+	n := len(b.data) - b.off
+	if n == 0 {
+		if b.end != io.EOF {
+			b.x.cuts.Add(1)
+		}
+		return 0, b.end
+	}
+	if b.piece > 0 && n > b.piece {
+		n = b.piece
+	}
+	if b.stallAt > b.off && n > b.stallAt-b.off {
+		n = b.stallAt - b.off
+	}
+	if n > len(p) {
+		n = len(p)
+	}
+	copy(p, b.data[b.off:b.off+n])
+	b.off += n
+	if b.off == len(b.data) && b.endData && b.stallAt < 0 {
+		if b.end != io.EOF {
+			b.x.cuts.Add(1)
+		}
+		return n, b.end
+	}
+	return n, nil
+}
+
+func (b *c11Body) Close() error { return nil }
+
+func c11TransportErr(kind string) error {
+	switch kind {
+	case "reset":
+		return &net.OpError{Op: "read", Net: "tcp", Err: syscall.ECONNRESET}
+	case "timeout":
+		return &net.OpError{Op: "read", Net: "tcp", Err: os.ErrDeadlineExceeded}
+	}
+	return io.ErrUnexpectedEOF
+}
+
+// response builds the answer to one GET while im is pinned; what is "" for the listing, a file name, or "-" for an error page.
+func (x *c11Run) response(im *c11Image, what string, status int, body []byte) *http.Response {
+	b := &c11Body{data: body, end: io.EOF, stallAt: -1, x: x}
+	length := int64(len(body))
+	if im != nil {
+		xf := &im.xfer
+		b.piece, b.endData = xf.Piece, xf.EndData
+		if xf.NoLength {
+			length = -1
+		}
+		if n, ok := im.cut[what]; ok && status == 200 {
+			// the announced length (if any) is that of the whole body; the connection dies after n bytes
+			b.data, b.end = body[:n], c11TransportErr(xf.Err)
+		}
+		if status == 200 && xf.stall > 0 && (xf.StallOn == "list" && what == "" || xf.StallOn == "file" && what != "" && what == im.stallFile) {
+			b.stall = xf.stall
+			b.stallAt = []int{0, len(b.data) / 2, len(b.data)}[xf.StallAt]
+		}
+	}
+	h := http.Header{"Content-Type": []string{"text/plain; charset=utf-8"}}
+	resp := &http.Response{StatusCode: status, Status: fmt.Sprintf("%d %s", status, http.StatusText(status)), Proto: "HTTP/1.1", ProtoMajor: 1, ProtoMinor: 1,
+		Header: h, Body: b, ContentLength: length}
+	if length < 0 {
+		resp.TransferEncoding = []string{"chunked"}
+	} else {
+		h.Set("Content-Length", fmt.Sprint(length))
+	}
+	return resp
+}
+
+func (x *c11Run) errorPage(im *c11Image, status int) *http.Response {
+	if status == 404 {
+		return x.response(im, "-", 404, []byte("404 page not found\n"))
+	}
+	return x.response(im, "-", status, []byte(http.StatusText(status)+"\n"))
 }
 
 func (x *c11Run) httpGet(url string) (*http.Response, error) {
+	if x.over.Load() {
+		// teardown: the server is gone, nothing is transferred any more
+		return nil, &net.OpError{Op: "dial", Net: "tcp", Err: syscall.ECONNREFUSED}
+	}
 	if url == c11ListURL {
 		im, err := x.enter("list")
 		if err != nil {
@@ -708,30 +1001,26 @@ func (x *c11Run) httpGet(url string) (*http.Response, error) {
 			return nil, &net.OpError{Op: "dial", Net: "tcp", Err: syscall.ECONNREFUSED}
 		}
 		if im.listStatus != 0 {
-			return c11ErrorPage(im.listStatus), nil
+			return x.errorPage(im, im.listStatus), nil
 		}
-		var b bytes.Buffer
-		for _, n := range im.order {
-			b.WriteString(n + "\n")
-		}
-		return c11Response(200, b.Bytes()), nil
+		return x.response(im, "", 200, im.listing()), nil
 	}
 	im := x.pin
 	name, ok := strings.CutPrefix(url, c11BaseURL)
-	if im == nil || !ok {
-		return c11ErrorPage(404), nil
+	if im == nil || !ok || name == "" {
+		return x.errorPage(im, 404), nil
 	}
 	if name == im.readErr {
 		return nil, &net.OpError{Op: "read", Net: "tcp", Err: syscall.ECONNRESET}
 	}
 	if st := im.fileStatus[name]; st != 0 {
-		return c11ErrorPage(st), nil
+		return x.errorPage(im, st), nil
 	}
 	b, ok := im.files[name]
 	if !ok {
-		return c11ErrorPage(404), nil
+		return x.errorPage(im, 404), nil
 	}
-	return c11Response(200, b), nil
+	return x.response(im, name, 200, b), nil
 }
 
 // ---- driving
@@ -742,6 +1031,26 @@ func (x *c11Run) publish(i int) {
 	st := &x.sc.States[i]
 	x.r.Tracef("publish state=%d kind=%s certs=%d", i, st.Kind, len(st.Certs))
 	x.r.Probe("state_" + st.Kind)
+	if im := x.images[i]; len(im.cut) > 0 {
+		for what, n := range im.cut { // one entry
+			body := im.listing()
+			if what != "" {
+				body = im.files[what]
+			}
+			switch {
+			case n == 0:
+				x.r.Probe("cut_before_first_byte")
+			case body[n-1] == '\n' && what == "":
+				x.r.Probe("cut_listing_at_line_boundary")
+			case what == "":
+				x.r.Probe("cut_listing_inside_name")
+			case bytes.HasPrefix(body[:n][bytes.LastIndexByte(body[:n-1], '\n')+1:], []byte("-----END ")):
+				x.r.Probe("cut_file_after_complete_block")
+			default:
+				x.r.Probe("cut_file_inside_block")
+			}
+		}
+	}
 }
 
 func (x *c11Run) step() bool {
@@ -759,18 +1068,34 @@ func (x *c11Run) quiesce() {
 	synctest.Wait()
 }
 
+// advance moves the clock by dt. A transfer that resumes on the way goes on at that very
+// instant and the load it belongs to runs to its end: no simulated time passes while a
+// task stands at a statement in the middle of a load (a watcher that has merely woken up
+// does wait for the next quiescent point: that is how a state appears "at the poll
+// instant, before the watcher looks").
 func (x *c11Run) advance(dt time.Duration) {
 	if x.spun {
 		return
 	}
-	x.d.Advance(dt)
+	end := time.Now().Add(dt)
+	for !x.spun {
+		at, ok := x.resumes()
+		if !ok || at.After(end) || !at.After(time.Now()) {
+			break
+		}
+		x.d.Advance(time.Until(at))
+		x.quiesce()
+	}
+	if d := time.Until(end); d > 0 && !x.spun {
+		x.d.Advance(d)
+	}
 }
 
 // settle notes that the published state is now guaranteed to be installed: it has
 // been offered for a full refresh interval and the system is idle again.
 func (x *c11Run) settle() {
-	if x.spun || time.Since(x.pubAt) < x.reff() {
-		return
+	if x.spun || time.Since(x.pubAt) < x.reff()+x.slack() || x.transferring() {
+		return // not offered for long enough, or not idle: a transfer is still under way
 	}
 	if !x.sc.States[x.cur].good() {
 		return
@@ -1116,7 +1441,7 @@ func (x *c11Run) violation(op *c11Op, lo, guaranteed, hi int) {
 func runC11(r *simcore.Run) {
 	sc := c11Gen(r.Gen, r.Thorough())
 	r.SetSample(sc)
-	x := &c11Run{r: r, sc: sc, owner: map[string]c11Owner{}, cur: 0, L: -1, floor: -1, faulted: map[int]bool{}}
+	x := &c11Run{r: r, sc: sc, owner: map[string]c11Owner{}, cur: 0, L: -1, floor: -1, faulted: map[int]bool{}, stop: make(chan struct{}), paused: map[*c11Body]time.Time{}}
 	for i := range sc.States {
 		st := &sc.States[i]
 		set := append([]c11Cert(nil), st.Certs...)
@@ -1174,8 +1499,13 @@ func runC11(r *simcore.Run) {
 		x.tap = &c11Tap{Source: src}
 		x.cfg, bootErr = TLSConfig(x.tap, sc.Strict, 0, 0, nil)
 	})
-	for !boot.Done() && x.step() {
+	for {
+		synctest.Wait() // the task released last has parked or ended: only now is Done() a fact of the schedule
+		if boot.Done() || !x.step() {
+			break
+		}
 	}
+	synctest.Wait()
 	if bootErr != nil || x.cfg == nil {
 		if !x.spun {
 			r.Trouble("TLSConfig: cfg=%v err=%v", x.cfg != nil, bootErr)
@@ -1224,7 +1554,7 @@ func runC11(r *simcore.Run) {
 	}
 	// the last state stays for a full interval, then two more idle polls
 	if !x.spun {
-		if time.Since(x.pubAt) < R {
+		for k := 0; k < 12 && (time.Since(x.pubAt) < R+x.slack() || x.transferring()); k++ {
 			x.advance(R)
 			x.quiesce()
 		}
@@ -1242,9 +1572,22 @@ func runC11(r *simcore.Run) {
 		r.Trouble("step budget exhausted: %v", d.Sim.TaskStates())
 	}
 	r.ProbeN("loader_entries", x.entries)
+	synctest.Wait()
+	r.ProbeN("transfer_pauses", int(x.pauses.Load()))
+	r.ProbeN("transfer_errors_delivered", int(x.cuts.Load()))
 }
 
 func (x *c11Run) teardown() {
+	// a transfer that is under way is allowed to end as scripted; after that the server is gone
+	for k := 0; k < 4 && !x.spun && x.steps < c11MaxSteps; k++ {
+		at, ok := x.resumes()
+		if !ok || !at.After(time.Now()) {
+			break
+		}
+		x.advance(time.Until(at))
+	}
+	x.over.Store(true)
+	close(x.stop)
 	x.net.Shutdown()
 	x.d.Sim.Stop()
 	synctest.Wait()
